@@ -20,11 +20,38 @@ NO_MB = {"VERIF_MB_KEYS": "0"}
 
 # suites: (name, cases quick, cases thorough[, extra environment])
 PROPS = {
+    "C04": {
+        "suites": [("apply", 300, 3000), ("proc", 100, 1000), ("kv", 100, 600)],
+        "title": "frontier monotonicity of apply_delta / cluster apply for every grammar-valid delta; fresh versions of local writes; copy invariant inductive",
+    },
+    "C07": {
+        "suites": [("fill", 24, 200), ("delta", 40, 300), ("proc", 60, 600)],
+        "title": "stream upper bound sound for every compressor; delta within budget, version-prefix, scheduled members excluded; replies <= 65,507 bytes",
+    },
+    "C09": {
+        "suites": [("wire", 120, 900), ("apply", 300, 3000), ("proc", 60, 600)],
+        "title": "decoded messages are grammar-valid; processing them on any well-formed node never aborts and keeps the invariant",
+    },
+    "C13": {
+        "suites": [("proc", 150, 1500), ("fd", 150, 1500)],
+        "title": "recorded membership = evaluated live members with current versions and verdicts; channel value = those with a true verdict; publish iff changed",
+    },
     "C14": {
-        "suites": [("proc", 120, 1200, NO_MB), ("kv", 40, 200, NO_MB)],
-        "assumptions": ["per-member view mk_node_delta is tied to the MTU loop by DeltaRefine.v"],
+        "suites": [("proc", 120, 1200, NO_MB), ("delta", 40, 300), ("apply", 200, 2000)],
+        "title": "agreement of sender's reset decision and receiver's admission for all copies and truncation points; tie to the MTU loop",
+    },
+    "C16": {
+        "suites": [("proc", 100, 1000), ("wire", 60, 400)],
+        "title": "foreign SYN answered by BadCluster only, state untouched but the own heartbeat; rejection terminal",
+    },
+    "C20": {
+        "suites": [("proc", 150, 1500), ("apply", 300, 3000)],
+        "title": "callback counter +1 iff configured and some copy's watermark was raised (= reset) by the message",
     },
 }
+
+
+NOT_CLAIMED = {}
 
 
 def known_findings(pid):
